@@ -302,7 +302,7 @@ def new_pair(rng, combo, pw, K, ident=None, cipher_name=None):
             "data": data.hex(), "pw": pw, "K": K.hex(), "keydict": keydict}
 
 
-def base_case(rng, idx, tier, big=False):
+def base_case(rng, idx, tier, big=False, cfg_len=None, keydict_blocks=False):
     combo = COMBOS[idx % len(COMBOS)]
     klen = [16, 24, 32][(idx // len(COMBOS)) % 3] if rng.chance(0.7) else rng.pick([16, 24, 32])
     K = bytes(rng.randrange(256) for _ in range(klen))
@@ -310,13 +310,20 @@ def base_case(rng, idx, tier, big=False):
     if rng.chance(0.03):
         pw = ""
     lens = [0, 1, 15, 16, 17, 31, 32, 33, 47, 48, 100, 255, 256]
-    if big:
+    if cfg_len is not None:
+        cfg, entries = gen_config(rng, cfg_len)
+    elif big:
         cfg, entries = gen_config(rng, rng.pick([1000, 2047, 2048, 4000] if tier == "thorough" else [700, 1000, 1500]))
     elif rng.chance(0.35):
         cfg, entries = gen_config(rng, rng.pick(lens))
     else:
         cfg, entries = gen_config(rng)
     good = new_pair(rng, combo, pw, K)
+    for _ in range(400):
+        if not keydict_blocks or len(good["keydict"]) % 16 == 0:
+            break
+        K = bytes(rng.randrange(256) for _ in range(klen))
+        good = new_pair(rng, combo, pw, K, cipher_name=rng.pick(["AES-256-CBC", "AES-256", "AES", "aes256", "A", "AES-128-CBC"]))
     pairs = [good]
     # other pairs before / after
     nother = rng.weighted([(0, 12), (1, 5), (2, 2), (3, 1)])
@@ -401,6 +408,48 @@ def make_tamper(rng, c, field=None, region=None, pos=None, x=None):
     else:
         g["rounds"] = g["rounds"] + rng.pick([1, 1, -1]) if g["rounds"] > 1 else g["rounds"] + 1
         c["tamper"] = {"field": "rounds", "region": "rounds", "pos": 0, "xor": 0}
+    return c
+
+
+def make_pad_tamper(rng, c, field, how):
+    """Alterations that only touch PKCS#7 padding of the plaintext (directed search with the writer's keys):
+    how = 'iv'   : plaintext shorter than a block, an IV byte under a padding byte is changed
+    how = 'last' : plaintext a whole number of blocks; a byte of the last ciphertext block is changed so that the
+                   garbled padding block still ends in 0x10."""
+    g = c["pairs"][c["good"]]
+    c["kind"] = "tamper"
+    c["expect"] = "err"
+    if field == "cfg_data":
+        blob, key = bytes.fromhex(c["cfg_blob"]), bytes.fromhex(g["K"])
+        plain_len = len(bytes.fromhex(c["cfg"]))
+    else:
+        blob = bytes.fromhex(g["data"])
+        key = hashlib.pbkdf2_hmac(KDFS[g["p2k"]], c["pw"].encode(), bytes.fromhex(g["salt"]), g["rounds"], CIPHERS[g["cipher"]])
+        plain_len = None
+    n = MACS[g["mac"]][1]
+    found = None
+    if how == "iv":
+        assert plain_len is not None and plain_len < 15
+        pos = rng.randrange(plain_len, 15)
+        found = (pos, rng.randrange(1, 256))
+    else:
+        ct_hi = len(blob) - n
+        order = [(pos, x) for pos in range(ct_hi - 16, ct_hi) for x in range(1, 256)]
+        rng.shuffle(order)
+        for pos, x in order:
+            nb = tamper_bytes(blob, pos, x)
+            if _aes(key, nb[:16]).decrypt(nb[16:ct_hi])[-1] == 16:
+                found = (pos, x)
+                break
+        if found is None:
+            found = order[0]
+    pos, x = found
+    nb = tamper_bytes(blob, pos, x)
+    if field == "cfg_data":
+        c["cfg_blob"] = nb.hex()
+    else:
+        g["data"] = nb.hex()
+    c["tamper"] = {"field": field, "region": "iv-under-padding" if how == "iv" else "padding-block", "pos": pos, "xor": x}
     return c
 
 
@@ -649,6 +698,14 @@ def gen_cases(rng, tier):
                     reg = [r for r, (lo, hi) in regions(ln, g["mac"]).items() if lo <= pos < hi][0]
                     cases.append(finish(make_tamper(rng, c, field=field, region=reg, pos=pos,
                                                     x=rng.pick([1, 0x80, 0xFF, rng.randrange(1, 256)]))))
+    # directed: alterations that only reach PKCS#7 padding
+    n_d = 1 if tier == "quick" else 12
+    for r in range(n_d):
+        for j, ln in enumerate([0, 1, 5, 14]):
+            cases.append(finish(make_pad_tamper(rng, base_case(rng, 4 * r + j, tier, cfg_len=ln), "cfg_data", "iv")))
+        for j, ln in enumerate([0, 16, 32]):
+            cases.append(finish(make_pad_tamper(rng, base_case(rng, 3 * r + j + 7, tier, cfg_len=ln), "cfg_data", "last")))
+        cases.append(finish(make_pad_tamper(rng, base_case(rng, r + 11, tier, keydict_blocks=True), "pair_data", "last")))
     n_w = 18 if tier == "quick" else 360
     for i in range(n_w):
         cases.append(finish(make_wrongpw(rng, base_case(rng, i, tier))))
